@@ -54,11 +54,31 @@ Definition nextseq_of (mode : N) (l : list N) : option (list N) :=
 Definition obsc_model (i : obsc_in) : list (N * N) :=
   let '(sup, known, r, mode) := i in
   observe_offramp sup known (match known with Some all => answer r all | None => None end) (nextseq_of mode).
+(* judge soundness (Proofs/JudgeSoundC15P.v): the earlier check looked at the curse state only.  It accepted numbers
+   observed without destination support or without the known sources (C15_no_observe_commit), numbers for a chain
+   outside the known sources (C15_observed_sources_commit), and a healthy round that drops a non-cursed known source
+   (C15_observes_exactly_commit).  All three clauses are read off the case now. *)
+Definition no_known (known : option (list N)) : bool := match known with None => true | Some _ => false end.
+Definition in_known (known : option (list N)) (c : N) : bool :=
+  match known with Some all => memN c all | None => false end.
 Definition obsc_ok (i : obsc_in) (o : list (N * N)) : bool :=
   let '(sup, known, r, mode) := i in
   let '(fails, g, d, cursed) := r in
-  if fails || g || d then match o with [] => true | _ => false end
-  else forallb (fun kv => negb (memN (fst kv) cursed)) o.
+  if negb (N.eqb sup 1) || no_known known || fails || g || d then match o with [] => true | _ => false end
+  else forallb (fun kv => negb (memN (fst kv) cursed) && in_known known (fst kv)) o &&
+       match known with
+       | Some all =>
+           match answer r all with
+           | Some ci =>
+               let src := non_cursed_sources ci all in
+               match nextseq_of mode src with
+               | Some sn => if Nat.eqb (length sn) (length src) then list_eqb N.eqb (map fst o) src else true
+               | None => true
+               end
+           | None => true
+           end
+       | None => true
+       end.
 Definition obsc_judge := judge obsc_model (list_eqb pN_eqb) obsc_ok (fun _ => 0%N).
 
 (* ---- part obs_exec: execute Plugin.Observation in the GetCommitReports phase ----
@@ -73,13 +93,23 @@ Definition obse_model (i : obse_in) : obse_out :=
   | Ok None => Some []
   | _ => None
   end.
+(* judge soundness: the earlier check accepted commit reports observed without the known sources
+   (C15_no_observe_exec), for a chain outside the known sources (C15_observed_sources_exec) and an observation that
+   drops a report of a non-cursed known source (C15_other_sources_kept_exec); now read off the case. *)
 Definition obse_ok (i : obse_in) (o : obse_out) : bool :=
   let '(sup, known, r, pending) := i in
   let '(fails, g, d, cursed) := r in
   match o with
   | None => true
-  | Some l => if fails || g || d then match l with [] => true | _ => false end
-              else forallb (fun kv => negb (memN (fst kv) cursed)) l
+  | Some l => if no_known known || fails || g || d then match l with [] => true | _ => false end
+              else forallb (fun kv => negb (memN (fst kv) cursed) && in_known known (fst kv)) l &&
+                   match pending with
+                   | Some p => if N.eqb sup 1
+                               then forallb (fun kv => negb (in_known known (fst kv)) || memN (fst kv) cursed ||
+                                                       existsb (pN_eqb kv) l) p
+                               else true
+                   | None => true
+                   end
   end.
 Definition obse_judge := judge obse_model (option_eqb (list_eqb pN_eqb)) obse_ok (fun _ => 0%N).
 
@@ -123,8 +153,8 @@ Definition cycc_ok (i : cycc_in) (o : cycc_out) : bool :=
   let '(st, sup, known, r, mode, sel) := i in
   let '(fails, g, d, cursed) := r in
   let off := fst o in
-  (if fails || g || d then match off with [] => true | _ => false end
-   else forallb (fun kv => negb (memN (fst kv) cursed)) off) &&
+  (* judge soundness: the off-ramp numbers are held to the full obs_commit check (was: curse state only) *)
+  (if N.eqb st 2 then true else obsc_ok (sup, known, (fails, g, d, cursed), mode) off) &&
   (if N.eqb st 2 then match off with [] => true | _ => false end else true) &&
   (* roots are observed for agreed ranges only *)
   forallb (fun c => memN c sel) (snd o).
@@ -167,9 +197,9 @@ Definition cyce_ok (i : cyce_in) (o : cyce_out) : bool :=
   | Some (cr, ms, ns) =>
       if N.eqb ph 1 then
         (match ms, ns with [], [] => true | _, _ => false end) &&
-        (if fails || g || d then match cr with [] => true | _ => false end
-         else forallb (fun kv => negb (memN (fst kv) cursed) &&
-                                 match known with Some all => memN (fst kv) all | None => false end) cr)
+        (* judge soundness: the commit reports are held to the full obs_exec check (adds: known sources missing,
+           reports of non-cursed known sources stay) *)
+        obse_ok (sup, known, (fails, g, d, cursed), pend) (Some cr)
       else
         let p := match pend with Some p => p | None => [] end in
         forallb (fun kv => existsb (pN_eqb kv) p) cr &&
